@@ -162,6 +162,10 @@ func pointerize(t, base reflect.Type, v reflect.Value) reflect.Value {
 	return p
 }
 
+func isPrimitiveKind(k reflect.Kind) bool {
+	return k == reflect.Bool || k == reflect.String || isInt(k) || isUint(k) || isFloat(k)
+}
+
 func isInt(k reflect.Kind) bool {
 	switch k {
 	case reflect.Int, reflect.Int8, reflect.Int16, reflect.Int32, reflect.Int64:
